@@ -25,7 +25,7 @@ def showList (l : List Bytes) : String :=
 
 def parseVariant (s : String) : Option Variant :=
   match s.toList with
-  | [a, b, c, d] => some ⟨a = '1', b = '1', c = '1', d = '1'⟩
+  | [a, b, c, d, e] => some ⟨a = '1', b = '1', c = '1', d = '1', e = '1'⟩
   | _ => none
 
 def showPdu : Pdu → String
@@ -89,6 +89,26 @@ def handle (line : String) : String :=
       let r := runScripted c fuel script resp p
       s!"W {showWires c.b106 r.1} | I {showPy toHex r.2}"
     | _, _, _, _, _ => "bad-op"
+  | ["tgt", b106, tdid, tmiu, v, frames, pt] =>
+    match mkCfg b106 "-" "-" tdid "1" tmiu v, parseList pt with
+    | some c, some pt =>
+      let items := if frames = "-" then [] else frames.splitOn ","
+      let step (acc : TState × List String × Bool) (it : String) : TState × List String × Bool :=
+        let (t, out, bad) := acc
+        if it = "c" then ((tRx c t .corrupt).1, out ++ ["c"], bad) else
+        match parseHex it with
+        | none => (t, out, true)
+        | some f => match decodeFrame c.b106 true f with
+          | .error _ => (t, out, true)
+          | .ok p =>
+            let r := tRx c t (.frame p)
+            let shown := match r.2 with
+              | none => "none"
+              | some q => (match encodeFrame c.b106 false q with | .ok fr => toHex fr | .error e => "!" ++ e.name)
+            (r.1, out ++ [shown], bad)
+      let (t, out, bad) := items.foldl step (TState.init pt, [], false)
+      if bad then "bad-op" else s!"R {if out.isEmpty then "-" else ",".intercalate out} | T {showT t}"
+    | _, _ => "bad-op"
   | ["act", lri, lrt, idid, inad, f20] =>
     match lri.toNat?, lrt.toNat?, optNat idid, optNat inad with
     | some lri, some lrt, some idid, some inad =>
